@@ -265,6 +265,26 @@ def run_case(case):
   d0f.overflow.zero_()
   mjw.forward(m, d0f)
   fref = {"obs": meta.snap_obs(d0f), "con": [mw.contacts(d0f, w) for w in range(nworld)], "rows": [mw.efc_rows(mjm, m, d0f, w) for w in range(nworld)]}
+  # conditioning probe for the single forward evaluation (same idea as for the steps above)
+  import warp as wp
+
+  dpf = fresh()
+  for k in ("qpos", "qvel"):
+    x = np.array(getattr(dpf, k).numpy(), dtype=np.float32)
+    if x.size:
+      up, dn = np.nextafter(x, np.float32(np.inf), dtype=np.float32), np.nextafter(x, np.float32(-np.inf), dtype=np.float32)
+      wp.copy(getattr(dpf, k), wp.array(np.where(prng.random(x.shape) < 0.5, up, dn).astype(np.float32), dtype=float))
+  dpf.overflow.zero_()
+  mjw.forward(m, dpf)
+  pfo = meta.snap_obs(dpf, fields=("qacc", "qfrc_constraint", "qacc_smooth"))
+  amp_f = np.zeros(nworld)
+  for w in range(nworld):
+    for k in ("qacc", "qfrc_constraint", "qacc_smooth"):
+      a, b = np.asarray(fref["obs"][k][w], dtype=np.float64), np.asarray(pfo[k][w], dtype=np.float64)
+      if a.size and np.all(np.isfinite(a)) and np.all(np.isfinite(b)):
+        amp_f[w] = max(amp_f[w], float(np.abs(a - b).max()) / max(1.0, float(np.abs(a).max())))
+      elif a.size:
+        amp_f[w] = np.inf
   for mode, key in schedules[: 2 + min(K, 2)]:
     df = fresh()
     df.overflow.zero_()
@@ -276,14 +296,17 @@ def run_case(case):
       if fref["obs"]["overflow"][w] != 0 or fobs["overflow"][w] != 0:
         rec.count("forward_worlds_ungated_overflow")
         continue
-      if meta.diverged(fref["obs"], w, fobs, w):
+      if meta.diverged(fref["obs"], w, fobs, w) or not np.isfinite(amp_f[w]):
         rec.count("forward_worlds_ungated_diverged")
         continue
+      tvf = max(1e-2, 30.0 * float(amp_f[w]))
+      if tvf > 1e-2:
+        rec.count("forward_worlds_judged_with_widened_bound(ill-conditioned solve)")
       tag = f"forward() schedule(mode={mode},key={key}) world {w}"
       rec.count("forward_worlds_compared")
-      rec.count("fobs_" + meta.compare_obs(rec, tag, fref["obs"], fobs, w, w, sig_prefix="forward:"))
-      rec.count("fcontacts_" + meta.compare_contacts(rec, tag, fref["con"][w], mw.contacts(df, w), sig_prefix="forward:"))
-      rec.count("frows_" + meta.compare_rows(rec, tag, fref["rows"][w], mw.efc_rows(mjm, m, df, w), sig_prefix="forward:", with_force=True))
+      rec.count("fobs_" + meta.compare_obs(rec, tag, fref["obs"], fobs, w, w, sig_prefix="forward:", tol_viol=tvf))
+      rec.count("fcontacts_" + meta.compare_contacts(rec, tag, fref["con"][w], mw.contacts(df, w), sig_prefix="forward:", tol_viol=tvf))
+      rec.count("frows_" + meta.compare_rows(rec, tag, fref["rows"][w], mw.efc_rows(mjm, m, df, w), sig_prefix="forward:", with_force=True, tol_viol=tvf))
   for mode, key in schedules:
     d = fresh()
     for t in range(T):
